@@ -143,6 +143,19 @@ def has_class_cycle(fam) -> bool:
     return any(i in reach(i) for i in range(n))
 
 
+def has_dsup_gap(fam) -> bool:
+    """a class WITHOUT ADD_DIALECT_SUPPORT that inherits from a class WITH it: it inherits the parent's
+    __dialect_*_cache__ attributes (the generated `cls.<cache>[dialect] = f` then writes into the parent's dict)"""
+    cl = fam["classes"]
+    for c in cl:
+        p = c["parent"]
+        while p is not None:
+            if cl[p]["dsup"] and not c["dsup"]:
+                return True
+            p = cl[p]["parent"]
+    return False
+
+
 def classify(fam, op, got, exp, got_aux, exp_aux, got_snap, exp_snap, src="") -> dict:
     """signature of a difference between the family under test (`got`) and the fresh eager twin (`exp`).
     kind is one of the known-finding kinds only when the precise predicate of that finding holds on the
@@ -164,6 +177,11 @@ def classify(fam, op, got, exp, got_aux, exp_aux, got_snap, exp_snap, src="") ->
             if aux.get("rec") == "build-cycle" and has_class_cycle(fam):
                 # on-demand nested compilation follows a class cycle whose methods are installed only at the end
                 return {**sig, "kind": "ondemand-build-cycle", "side": side}
+        if (len(out) > 4 and out[3] == "TypeError" and "unexpected keyword argument 'dialect'" in out[4] and "dialect=" in op
+                and (has_dsup_gap(fam) or not fam["classes"])):
+            # an earlier dialect-specific on-demand build of a subclass without dialect support stored ITS function
+            # in the inherited cache of the parent class
+            return {**sig, "kind": "dialect-cache-inherited-by-subclass", "side": side}
         if len(out) > 4 and out[3] == "AttributeError" and "dialect=" in op and ATTR_RE.search(out[4]):
             # a dialect-specific build met a nested class whose default method was not compiled yet
             return {**sig, "kind": "dialect-call-before-default-compile", "side": side}
@@ -312,6 +330,24 @@ class B(A):
     z: int = 0
 """, ["B(z=1, b=B(z=2)).to_jsonb()", "A(bs=[B(z=3)]).to_msgpack()", "A.from_json(b'{\"b\": {\"z\": 4}}')",
       "B.from_msgpack(msgpack.packb({'z': 5, 'bs': [{'z': 6}]}))", "A(b=B()).to_dict()"]),
+    ("dialect cache inherited by a subclass without dialect support", """
+@dataclass(kw_only=True)
+class K0(DataClassORJSONMixin):
+    a: int = 0
+    class Config(BaseConfig):
+        code_generation_options = [ADD_DIALECT_SUPPORT]
+@dataclass(kw_only=True)
+class K1(K0):
+    b: int = 1
+    class Config(BaseConfig):
+        code_generation_options = []
+@dataclass(kw_only=True)
+class K3(DataClassORJSONMixin):
+    ks: Dict[str, K1] = field(default_factory=dict)
+    class Config(BaseConfig):
+        lazy_compilation = True
+        code_generation_options = [ADD_DIALECT_SUPPORT]
+""", ["K3(ks={}).to_jsonb(dialect=D1)", "K0(a=5).to_jsonb(dialect=D1)"]),
     ("discriminated hierarchy, two formats", """
 @dataclass
 class Base(DataClassMessagePackMixin):
